@@ -233,7 +233,7 @@ static void c01_input(uint64_t seed, uint64_t j, bool small, Json &inj, std::str
 
 static bool gen_c01(uint64_t seed, const std::string &tier, uint64_t i, Plan &p) {
   const uint64_t K = 44;                // call sites swept per input
-  const uint64_t V = 1 + 6 * K + 8 + 7; // variants per input
+  const uint64_t V = 1 + 7 * K + 8 + 7; // variants per input
   uint64_t ninputs = tier == "quick" ? 10 : 400;
   uint64_t j = i / V, v = i % V;
   p = Plan(); p.property = "C01"; p.world = "Q"; p.seed = mix64(mix64(seed, 0xC01), i);
@@ -251,7 +251,7 @@ static bool gen_c01(uint64_t seed, const std::string &tier, uint64_t i, Plan &p)
     p.ops.push(inj);
     Fault f; f.actor = "qmail-queue#1"; f.call = C_ANY;
     std::string what = "fault-free";
-    if (v >= 1 && v < 1 + 6 * K) {
+    if (v >= 1 && v < 1 + 7 * K) {
       uint64_t kind = (v - 1) / K, site = (v - 1) % K + 1; f.nth = (int)site;
       switch (kind) {
         case 0: f.kind = "error"; f.err = (site % 2) ? EIO : ENOSPC; what = "error"; break;
@@ -260,6 +260,7 @@ static bool gen_c01(uint64_t seed, const std::string &tier, uint64_t i, Plan &p)
         case 3: f.kind = "crash"; f.image = "random"; what = "crash/random"; break;
         case 4: f.kind = "signal"; f.arg = 14; what = "SIGALRM"; break;
         case 5: f.kind = "short"; f.arg = 1 + (int64_t)(site % 3); what = "short-io"; break;
+        case 6: f.kind = "signal_after"; f.arg = (site % 3) ? 14 : 15; what = (site % 3) ? "SIGALRM-on-return" : "SIGTERM-on-return"; break;   // the signal is handled when call #site returns, before the program's next instruction
       }
       p.faults.push_back(f);
       what += "@call" + std::to_string(site);
@@ -271,9 +272,9 @@ static bool gen_c01(uint64_t seed, const std::string &tier, uint64_t i, Plan &p)
         p.knobs.set("expect_gc", true).set("max_sim_s", 1000000);
         what += "+gc";
       } else if (kind == 2 || kind == 3) { p.ops.push(Json::obj().set("op", "boot")); p.ops.push(Json::obj().set("op", "settle").set("max_s", 10000)); }
-    } else if (v >= 1 + 6 * K && v < 1 + 6 * K + 8) {
-      f.call = C_MALLOC; f.nth = (int)(v - 6 * K); f.kind = "null"; p.faults.push_back(f); what = "alloc-fail#" + std::to_string(f.nth);
-    } else if (v >= 1 + 6 * K + 8) {
+    } else if (v >= 1 + 7 * K && v < 1 + 7 * K + 8) {
+      f.call = C_MALLOC; f.nth = (int)(v - 7 * K); f.kind = "null"; p.faults.push_back(f); what = "alloc-fail#" + std::to_string(f.nth);
+    } else if (v >= 1 + 7 * K + 8) {
       // two faults
       Fault a = f, b = f; a.nth = (int)r.range(1, 30); a.kind = "short"; a.arg = 1; b.nth = (int)r.range(1, 30); b.kind = r.chance(0.5) ? "error" : "kill"; b.err = EIO;
       p.faults.push_back(a); p.faults.push_back(b); what = "double-fault";
@@ -310,8 +311,8 @@ static bool gen_c01(uint64_t seed, const std::string &tier, uint64_t i, Plan &p)
 }
 
 static RegisterProperty reg_c01(PropertyDef{
-    "C01", "Q", "fault_enumeration", "deterministic simulation with fault enumeration: every system-call site of qmail-queue x {error, kill, machine crash (worst and random image), SIGALRM, short I/O}, allocation failures, plus seeded multi-fault plans; publication invariant on crash images", gen_c01,
-    "for each sampled input (body sizes straddling the 256/2048/8192-byte buffers; envelopes valid, over-long 1001-1004, wrong letters, unterminated, truncated, empty) one fault-free run and one run per (call site 1..44) x (I/O error, process kill, machine crash keeping nothing unsynced, machine crash with random torn image, SIGALRM, short transfer), 8 allocation failures and 7 double faults; "
+    "C01", "Q", "fault_enumeration", "deterministic simulation with fault enumeration: every system-call site of qmail-queue x {error, kill, machine crash (worst and random image), SIGALRM before the call, SIGALRM/SIGTERM handled on return from the call, short I/O}, allocation failures, plus seeded multi-fault plans; publication invariant on crash images", gen_c01,
+    "for each sampled input (body sizes straddling the 256/2048/8192-byte buffers; envelopes valid, over-long 1001-1004, wrong letters, unterminated, truncated, empty) one fault-free run and one run per (call site 1..44) x (I/O error, process kill, signal handled on return from the call, machine crash keeping nothing unsynced, machine crash with random torn image, SIGALRM, short transfer), 8 allocation failures and 7 double faults; "
     "then seeded random plans with 1-3 concurrent injectors, a live daemon and 0-3 faults. distinct = distinct trace hashes (a fault that never fires leaves the fault-free trace and is not counted twice)",
     q_real(), {"message/envelope feeders (pre-filled pipes)", "spawner stubs when the daemon is booted"}, q_assume(), "n/a (per-injection verdicts)", 3400, 170000});
 
@@ -358,6 +359,7 @@ static bool gen_c02(uint64_t seed, const std::string &tier, uint64_t i, Plan &p)
     int kk = (int)r.below(10);
     if (kk < 3) f.kind = "kill"; else if (kk < 7) { f.kind = "crash"; f.image = r.pick(std::vector<std::string>{"worst", "best", "random"}); }
     else if (kk < 9 && who < 4) { f.kind = "stall"; f.arg = r.pick(std::vector<int64_t>{10, 80000, 86399, 86401, 129500, 130000, 140000, 300000}); }
+    else if (who < 4 && r.chance(0.6)) { f.kind = r.chance(0.5) ? "signal" : "signal_after"; f.arg = r.chance(0.7) ? 14 : 15; }   // the injector's own alarm (or a TERM) at an arbitrary call boundary
     else { f.kind = "error"; f.err = EIO; }
     p.faults.push_back(f);
   }
@@ -372,6 +374,7 @@ static bool gen_c02(uint64_t seed, const std::string &tier, uint64_t i, Plan &p)
     for (auto &op : p.ops.a) { if (op.gets("op") == "inject" && !placed) { ops2.push(Json::obj().set("op", "boot")); ops2.push(Json::obj().set("op", "sleep").set("s", (long long)r.range(0, 76431))); placed = true; } if (op.gets("op") != "second_send") ops2.push(op); }
     p.ops = ops2;
   }
+  if (i % 8 == 1) { Fault f; f.actor = "qmail-queue"; f.call = r.chance(0.5) ? C_ANY : r.pick(std::vector<CallId>{C_LINK, C_OPEN, C_FSYNC, C_UNLINK}); f.nth = f.call == C_ANY ? (int)r.range(5, 30) : (int)r.range(1, 3); f.kind = r.chance(0.4) ? "signal" : "signal_after"; f.arg = r.chance(0.7) ? 14 : 15; p.faults.push_back(f); }
   if (i % 8 == 3) {
     // one failing call of the daemon or the cleaner on a named kind of queue file, early in that file's use: removals that fail
     // half-way through a state transition must leave a documented state behind
